@@ -17,8 +17,15 @@ THEOREMS = ['C17_derives_rename', 'C17_trees_rename', 'C17_trees_are_derivations
             'C17_override_terminal_refuted',
             'C17_override_replaces', 'C17_template_is_substitution', 'C17_subst_no_capture',
             'C17_instance_name_injective', 'C17_template_label_renamed', 'C17_example',
-            'C17_template_label_example', 'C17_import_is_inlining_example', 'C17_semantic_example']
-GEN_DEPS = ['Mangle']
+            'C17_template_label_example', 'C17_import_is_inlining_example', 'C17_semantic_example',
+            # round 12: file search, statement front, conditions regenerated from the source, template options
+            'C17_import_resolution_order', 'C17_import_not_found', 'C17_import_candidates', 'C17_import_path_shadows',
+            'C17_stdlib_is_last', 'C17_search_is_dotted_lookup', 'C17_declare_is_bodyless_terminal',
+            'C17_ignore_is_not_imported', 'C17_ignore_named_terminal', 'C17_make_rule_tuple',
+            'C17_define_extend_are_source', 'C17_validate_is_source', 'C17_dispatch_is_source',
+            'C17_search_order_is_source', 'C17_constants_are_source', 'C17_template_instance_keeps_options',
+            'C17_search_example', 'C17_coherent_example', 'C17_override_term_seen_iff_unshared']
+GEN_DEPS = ['Mangle', 'ModSrc']
 RULE = ('random programs of 1-3 module files (plain / renamed / multi / nested %import, %override, %extend, templates with '
         'symbol, literal and nested-template arguments, same-named private rules and terminals in every module, '
         '%extend / %override of imported terminals that other imported terminals are built from (by name, as '
@@ -31,15 +38,32 @@ RULE = ('random programs of 1-3 module files (plain / renamed / multi / nested %
         'global options keep_all_tokens x maybe_placeholders (given to both grammars; keep_all_tokens also to the builder '
         'in (a)), and a fixed corpus (imported rules with anonymous punctuation, _TERMINALS, [..] items at import depth 1 '
         'and 2) under the full 2x2 matrix; (c) _unpack_import against Mod/Unpack.unpack_import on every %import statement '
-        'of the generated files and a fixed list. non-trivial = distinct program with >= 1 '
+        'of the generated files and a fixed list; (d) the file search: programs laid out over import_paths directories '
+        '(spelled absolute / with trailing or doubled slash / relative to the current directory / empty), the directory of '
+        'the importing grammar (file name, "<string>", other names), the current directory, a package read through '
+        'FromPackageLoader and lark\'s bundled grammars, with library and relative imports nested in the modules, shadowing '
+        'copies of every module and of common.lark, missing modules and inconsistent base paths: GrammarBuilder\'s '
+        'definitions, used_files (order) and exception class against Mod/Search.load_fs_and_validate on the raw statement '
+        'trees, and every do_import search (dotted path, base path -> joined path) against Mod/Search.resolve; '
+        '_unpack_definition/_make_rule_tuple against Mod/Front.unpack_def on every definition statement; os.path.join/split '
+        'against the model; (e) histories: the same top-level grammar text loaded five times in one process while the '
+        'imported modules change (other directory, file rewritten in place, back), each load against the model and against '
+        'its own hand-inlined grammar; (f) a systematic family of templates with every modifier x priority x location '
+        '(local, imported template, template used inside an imported rule) x order of a competing alternative under '
+        'earley (dynamic and basic lexer) and lalr, and the options of every created instance against the model. non-trivial = distinct program with >= 1 '
         'import that contributes >= 2 definitions / distinct (program, input) with an accepted parse')
 TRUSTED_BASE = ['hand model Mod/Modules.v of GrammarBuilder / resolve_term_references / ApplyTemplates (tied by comparing '
                 'final definitions and per-call template instantiation); the string operations of _get_mangle are '
                 'regenerated from the source (translator/gen_modules.py, control skeleton pinned by a template) and proved '
                 'equal to the model mangle',
-                'the .lark front end (_parse_grammar, _unpack_import, _make_rule_tuple) is not modelled: the model '
-                'starts from the statement trees lark itself produced',
-                'file search (import_paths, base_path, stdlib loader) is not modelled: modules are found by dotted path',
+                'the .lark parser (_parse_grammar: LALR parse of the grammar text + PrepareGrammar) is not modelled: the model '
+                'starts from the statement trees it returns; _make_rule_tuple, _unpack_definition, _unpack_import, the '
+                'statement dispatch and the file search of do_import are modelled (Mod/Front.v, Mod/Search.v), their '
+                'conditions and constants regenerated from the source (Gen/ModSrc.v) with every mirrored function pinned by '
+                'a template, decorators and module-level state of load_grammar.py included',
+                'the file system is an abstract table (canonical path -> parsed file; package data); os.path.join/split are '
+                'modelled for POSIX paths without "." / ".." components; custom loaders other than FromPackageLoader, the '
+                'used_files hash check and int() of priorities are outside the model',
                 'python reference inliner in harness/props/C17.py (the "by hand" grammar of the differential)']
 ASSUMPTIONS = ['the trees of terminal definitions are modelled as shared heap objects (resolve_term_references inserts the '
                'referenced object; %extend changes it in place; %override makes a new one); programs that %override a '
@@ -49,6 +73,7 @@ ASSUMPTIONS = ['the trees of terminal definitions are modelled as shared heap ob
 ALLOWED_AXIOMS = []
 
 IMPORTS = 'From LV Require Import Mod.Modules Mod.ModulesCheck Mod.Unpack Mod.UnpackCheck.'
+IMPORTS_SEARCH = IMPORTS + '\nFrom LV Require Import Mod.Front Mod.Search Mod.SearchCheck.'
 
 
 # ----------------------------------------------------------------------------------------------
@@ -652,7 +677,9 @@ def gen_module(rng, letters, imported_rules, imported_terms, imported_templates,
         tm = rng.choice(['', '', '?', '!']) if not tn.startswith('_') else ''
         if '!' in tm and lit_template_arg(alts):
             tm = ''
-        tdefs.append(('rule', tm, tn, ps, None, alts))
+        # templates carry every modifier an ordinary rule can have, the priority included (seeded change C17-g)
+        tprio = None if rng.random() < 0.6 else rng.choice([1, 2, 3, -1])
+        tdefs.append(('rule', tm, tn, ps, tprio, alts))
         templates[tn] = len(ps)
     rules = list(imported_rules)
     rdefs = []
@@ -1097,8 +1124,9 @@ def record_templates(main_text, d):
         res = orig(self, c)
         app = self.rule_defs[n0:]
         if argterms is not None and len(app) <= 1:
-            appended = 'None' if not app else '(Some (%s, %s))' % (S(str(app[0][0])), ct(app[0][2]))
-            ok_shape = (not app) or (list(app[0][1]) == [])
+            ok_shape = (not app) or (list(app[0][1]) == [] and app[0][3] is not None)
+            appended = 'None' if not (app and ok_shape) else '(Some (%s, %s, %s))' % (
+                S(str(app[0][0])), ct(app[0][2]), copts(app[0][3], False))
             cases.append('((%s, %s, %s, %s, (%s, %s, %s)) : tmpl_case)' % (
                 L([S(x) for x in created]),
                 L(['(mkR %s %s %s %s)' % (S(n), L([S(x) for x in ps]), t, o) for n, ps, t, o in rds]),
@@ -1293,25 +1321,609 @@ def run_option_corpus(ctx, load_cases, load_meta):
                                   % (str(a)[:200], str(b)[:200], parser, opts, t))
 
 # ----------------------------------------------------------------------------------------------
+# the raw statement front (Mod/Front.v) and the file search (Mod/Search.v)
+# ----------------------------------------------------------------------------------------------
+def craw_def(t):
+    """Tree('rule'|'term', ...) as _parse_grammar returns it -> Coq raw_def"""
+    if t.data == 'rule':
+        mods_t, name, params_t, prio_t, exp = t.children
+        mods = opt(str(mods_t.children[0]) if mods_t.children else None, S)
+        prio = opt(int(prio_t.children[0]) if prio_t.children else None, Z)
+        return '(RawRule %s %s %s %s %s)' % (mods, S(str(name)), L([S(str(x)) for x in params_t.children]), prio, ct(exp))
+    prio = int(t.children[1]) if len(t.children) == 3 else None
+    return '(RawTerm %s %s %s)' % (S(str(t.children[0])), opt(prio, Z), ct(t.children[-1]))
+
+
+def raw_terms(text, name='<c17>'):
+    """statement trees of one file exactly as load_grammar sees them -> list of Coq raw_stmt terms"""
+    from lark.load_grammar import _parse_grammar
+    from lark.tree import Tree
+    from lark.grammar import Terminal
+    out = []
+    for st in _parse_grammar(text, name).children:
+        k = str(st.data)
+        if k in ('rule', 'term'):
+            out.append('(RDefine %s)' % craw_def(st))
+        elif k == 'override':
+            out.append('(ROverride %s)' % craw_def(st.children[0]))
+        elif k == 'extend':
+            out.append('(RExtend %s)' % craw_def(st.children[0]))
+        elif k == 'ignore':
+            out.append('(RIgnore %s)' % ct(st.children[0]))
+        elif k == 'declare':
+            out.append('(RDeclare %s)' % L(['(%s, %s)' % (B(isinstance(x, Terminal)), S(x.name)) for x in st.children]))
+        elif k == 'import':
+            path_node = st.children[0]
+            arg1 = st.children[1] if len(st.children) > 1 else None
+            if isinstance(arg1, Tree):
+                arg = '(ANames %s)' % L([S(str(n)) for n in arg1.children])
+            elif arg1 is not None:
+                arg = '(AAlias %s)' % S(str(arg1))
+            else:
+                arg = 'ANone'
+            out.append('(RImport %s %s %s)' % (B(str(path_node.data) == 'import_rel'),
+                                               L([S(str(c)) for c in path_node.children]), arg))
+        else:
+            raise FrontEnd('statement ' + k)
+    return out
+
+
+UNPACK_DEF_FIXED = ['a: "x"\n', '?a: b\n', '!a: "x" b\n', '!?a: b\n', '?!a: b\n', '_a: b\n', '?_a: b\n', '!_a: "x"\n',
+                    '?!_a: b\n', 'a.3: b\n', 'a.-2: b\n', 'a{x}: x\n', '?a{x, y}.2: x y\n', '!_a{x}: x "k"\n',
+                    'A: "a"\n', 'A.5: "a" B\n', '_A.-1: /a/\n', '%override ?a: b\n', '%extend !a: "k"\n', '%extend A.2: "b"\n']
+
+
+def unpack_def_cases(texts):
+    """every definition statement -> (coq (raw_def, observed defn or None), readable)"""
+    from lark.load_grammar import _parse_grammar, GrammarBuilder
+    from lark.exceptions import GrammarError
+    out = []
+    for text in texts:
+        try:
+            tree = _parse_grammar(text, 'c17.lark')
+        except GrammarError:
+            continue
+        for st in tree.children:
+            k = str(st.data)
+            if k in ('override', 'extend'):
+                st = st.children[0]
+            elif k not in ('rule', 'term'):
+                continue
+            raw = craw_def(st)        # before _unpack_definition (which does not change the statement tree)
+            try:
+                name, is_term, exp, params, o = GrammarBuilder()._unpack_definition(st, None)
+                obs = '(Some %s)' % cdef(name, is_term, exp, params, o)
+                shown = [str(name), bool(is_term), list(map(str, params)), str(o)]
+            except GrammarError as e:
+                obs, shown = 'None', 'GrammarError: ' + str(e)[:80]
+            out.append(('(%s, %s)' % (raw, obs), {'statement': text.strip()[:120] if text in UNPACK_DEF_FIXED else str(st)[:120],
+                                               'observed': shown}))
+    return out
+
+
+class PathMap:
+    """real paths of one laid-out program -> the short, case-independent paths the model sees (the strings are
+    shared between the cases: string literals dominate the cost of the generated Coq files)"""
+
+    def __init__(self, case_dir, idx):
+        self.real = case_dir.rstrip('/')
+        self.pk = 'case%d/' % idx
+
+    def m(self, p):
+        return p.replace(self.real, '/r').replace(self.pk, 'k/')
+
+
+def cgname(n, pm):
+    from lark.load_grammar import PackageResource
+    if isinstance(n, PackageResource):
+        return '(GRes %s %s)' % (S(n.pkg_name), S(pm.m(n.path)))
+    return '(GName %s)' % S(pm.m(str(n)))
+
+
+def cbase(b, pm):
+    from lark.load_grammar import PackageResource
+    if b is None:
+        return 'BNone'
+    if isinstance(b, PackageResource):
+        return '(BRes %s %s)' % (S(b.pkg_name), S(pm.m(b.path)))
+    return '(BDir %s)' % S(pm.m(str(b)))
+
+
+def exc_class(e):
+    from lark.exceptions import GrammarError
+    if isinstance(e, GrammarError):
+        return 0
+    if isinstance(e, OSError):
+        return 1
+    if isinstance(e, AssertionError):
+        return 2
+    if isinstance(e, TypeError):
+        return 3
+    return 9
+
+
+SEARCH_PKG = 'c17pkg'
+_STD_CACHE = {}
+
+
+def stdlib_data_terms():
+    """the grammars bundled with lark (what stdlib_loader reads), parsed by lark's front end"""
+    import lark
+    out = []
+    gdir = os.path.join(os.path.dirname(lark.__file__), 'grammars')
+    for fn in sorted(os.listdir(gdir)):
+        if fn in ('common.lark', 'unicode.lark'):
+            text = open(os.path.join(gdir, fn), encoding='utf8').read()
+            out.append(('lark', 'grammars/' + fn, text))
+    return out
+
+
+def gen_search_case(rng, root, idx, pkgroot):
+    """-> dict describing one program laid out over several directories"""
+    case = os.path.join(root, 's%d' % idx)
+    locs = ['p0', 'p1', 'home', 'home/sub', 'cwd', 'cwd/lp']
+    pkg_dirs = ['case%d/la' % idx, 'case%d/lb' % idx]
+    mods_order = ['m', 'n', 'util']
+    files = {}        # real path -> text
+    data = {}         # (pkg, path) -> text
+
+    def module_text(mod, tag):
+        lines = ['X: "%s@%s"' % (mod, tag)]
+        later = mods_order[mods_order.index(mod) + 1:] if mod in mods_order else []
+        if later and rng.random() < 0.6:
+            t = rng.choice(later)
+            rel = rng.random() < 0.5
+            sub = 'sub.' if rng.random() < 0.15 else ''
+            lines.append('%%import %s%s%s.X -> %sX' % ('.' if rel else '', sub, t, t.upper()))
+            lines.append('Y: %sX "y"' % t.upper())
+            lines.append('y: Y')
+        if mod == 'common':
+            lines = ['WS: "ws@%s"' % tag, 'INT: "int@%s"' % tag]
+        if rng.random() < 0.15:
+            lines.append('%ignore X')
+        return '\n'.join(lines) + '\n'
+
+    for mod in mods_order + ['common']:
+        for loc in locs:
+            # copies of one module in several searched places are the norm: the ORDER of the search decides
+            if rng.random() < (0.6 if mod != 'common' else 0.25):
+                files[os.path.join(case, loc, mod + '.lark')] = module_text(mod, loc)
+        for pd in pkg_dirs:
+            if rng.random() < 0.5 and mod != 'common':
+                data[(SEARCH_PKG, pd + '/' + mod + '.lark')] = module_text(mod, pd.split('/')[-1])
+    # import_paths
+    cand = [('dir', 'p0'), ('dir', 'p1'), ('dir', 'home'), ('dir', 'home/sub'), ('dir', 'cwd/lp'), ('dir', 'cwd'),
+            ('pkg', pkg_dirs if rng.random() < 0.7 else pkg_dirs[::-1]), ('pkg', pkg_dirs[:1])]
+    paths = []
+    for kind, v in rng.sample(cand, rng.choice([0, 1, 2, 2, 3, 3])):
+        if kind == 'pkg':
+            paths.append(('pkg', SEARCH_PKG, list(v)))
+        else:
+            real = os.path.join(case, v)
+            sp = rng.random()
+            if v.startswith('cwd') and sp < 0.4:
+                spelled = v[4:]                       # relative to the current directory ('' is the directory itself)
+                if spelled and rng.random() < 0.5:
+                    spelled += '/'
+            elif sp < 0.6:
+                spelled = real
+            elif sp < 0.8:
+                spelled = real + '/'
+            else:
+                spelled = os.path.join(case, '') + '/' + v          # a doubled slash
+            paths.append(('dir', spelled))
+    # top-level grammar
+    imports = []
+    used = []
+    for _ in range(rng.choice([1, 1, 2, 2, 3])):
+        mod = rng.choice(['m', 'm', 'n', 'util', 'common', 'common', 'nosuch'] if rng.random() < 0.9 else ['sub.m', 'm'])
+        rel = rng.random() < 0.45
+        nm = 'X' if 'common' not in mod else rng.choice(['WS', 'INT'])
+        alias = '%s%s_%d' % ('R' if rel else 'L', nm, len(imports))
+        form = rng.random()
+        if form < 0.7:
+            imports.append('%%import %s%s.%s -> %s' % ('.' if rel else '', mod, nm, alias))
+            used.append(alias)
+        elif form < 0.92:
+            imports.append('%%import %s%s (%s)' % ('.' if rel else '', mod, nm))
+            used.append(nm)
+        else:
+            imports.append('%%import %s%s' % ('.' if rel else '', mod))          # nothing imported / a module as a name
+    used = [u for i, u in enumerate(used) if u not in used[:i]]
+    main = '\n'.join(imports) + '\nstart: %s\n' % (' '.join(used) if used else '"k"')
+    r = rng.random()
+    if r < 0.55:
+        gname = os.path.join(case, 'home', 'main.lark')
+    elif r < 0.7:
+        gname = os.path.join(case, 'home', 'sub', 'main.lark')
+    elif r < 0.85:
+        gname = '<string>'
+    else:
+        gname = rng.choice(['<c17>', 'main.lark', 'lp/main.lark'])
+    return dict(case=case, files=files, data=data, paths=paths, main=main, gname=gname, cwd=os.path.join(case, 'cwd'),
+                keep=rng.random() < 0.2)
+
+
+def write_search_case(c, pkgroot):
+    for fp, text in c['files'].items():
+        os.makedirs(os.path.dirname(fp), exist_ok=True)
+        with open(fp, 'w') as f:
+            f.write(text)
+    for (pkg, rel), text in c['data'].items():
+        fp = os.path.join(pkgroot, pkg, rel)
+        os.makedirs(os.path.dirname(fp), exist_ok=True)
+        with open(fp, 'w') as f:
+            f.write(text)
+    for sub in ('cwd/lp', 'home/sub', 'p0', 'p1'):
+        os.makedirs(os.path.join(c['case'], sub), exist_ok=True)
+
+
+def run_search_case(c):
+    """the real GrammarBuilder on one laid-out program; logs every do_import search"""
+    import sys
+    from lark import load_grammar as lg
+    from lark.load_grammar import GrammarBuilder, FromPackageLoader
+    paths = [FromPackageLoader(p[1], tuple(p[2])) if p[0] == 'pkg' else p[1] for p in c['paths']]
+    log, stack = [], []
+    o_imp, o_load = GrammarBuilder.do_import, GrammarBuilder.load_grammar
+
+    def w_imp(self, dotted_path, base_path, aliases, base_mangle=None):
+        rec = {'path': tuple(map(str, dotted_path)), 'base': base_path, 'found': None, 'exc': None}
+        log.append(rec)
+        stack.append(rec)
+        try:
+            return o_imp(self, dotted_path, base_path, aliases, base_mangle)
+        except BaseException as e:
+            if rec['found'] is None and rec['exc'] is None:
+                rec['exc'] = e
+            raise
+        finally:
+            stack.pop()
+
+    def w_load(self, grammar_text, grammar_name='<?>', mangle=None):
+        if stack and stack[-1]['found'] is None:
+            stack[-1]['found'] = grammar_name
+        saved, stack[:] = list(stack), []
+        try:
+            return o_load(self, grammar_text, grammar_name, mangle)
+        finally:
+            stack[:] = saved
+
+    old_cwd = os.getcwd()
+    GrammarBuilder.do_import, GrammarBuilder.load_grammar = w_imp, w_load
+    gb = GrammarBuilder(c['keep'], paths)
+    try:
+        os.chdir(c['cwd'])
+        try:
+            gb.load_grammar(c['main'], c['gname'])
+            gb.validate()
+            res = ('ok', gb)
+        except Exception as e:
+            res = ('exc', e)
+    finally:
+        os.chdir(old_cwd)
+        GrammarBuilder.do_import, GrammarBuilder.load_grammar = o_imp, o_load
+    return res, log
+
+
+def search_env_term(c, pm, std):
+    import sys
+    files = L(['(%s, %s)' % (S(pm.m(fp)), L(raw_terms(text))) for fp, text in sorted(c['files'].items())])
+    data = L(['((%s, %s), %s)' % (S(pkg), S(pm.m(rel)), L(raw_terms(text))) for (pkg, rel), text in sorted(c['data'].items())]
+             + ['((%s, %s), %s)' % (S(pkg), S(rel), name) for (pkg, rel, name) in std])
+    mf = getattr(sys.modules.get('__main__'), '__file__', None)
+    main = opt(os.path.abspath(mf) if mf else None, lambda x: S(pm.m(x)))
+    paths = L(['(SrcPkg %s %s)' % (S(p[1]), L([S(pm.m(x + '/')[:-1]) for x in p[2]])) if p[0] == 'pkg' else '(SrcDir %s)' % S(pm.m(p[1]))
+               for p in c['paths']])
+    return '(mkEnv %s %s %s %s %s STDLIB)' % (files, data, S(pm.m(c['cwd'])), main, paths)
+
+
+def run_search_stream(ctx):
+    """the file search: programs laid out over import_paths directories, the directory of the importing grammar,
+    the current directory, a package read through FromPackageLoader and lark's bundled grammars"""
+    global CUR
+    import sys
+    import importlib
+    rng = ctx.rng
+    root = os.path.join(ctx.scratch, 'search')
+    pkgroot = os.path.join(ctx.scratch, 'searchpkg')
+    os.makedirs(os.path.join(pkgroot, SEARCH_PKG), exist_ok=True)
+    open(os.path.join(pkgroot, SEARCH_PKG, '__init__.py'), 'w').close()
+    sys.modules.pop(SEARCH_PKG, None)
+    sys.path.insert(0, pkgroot)
+    importlib.invalidate_caches()
+    saved_interner, CUR = CUR, Interner()
+    std_defs, std = [], []
+    env_defs, fs_cases, fs_meta, res_cases, res_meta = [], [], [], [], []
+    try:
+        for k, (pkg, rel, text) in enumerate(stdlib_data_terms()):
+            try:
+                std_defs.append('Definition std_data_%d : list raw_stmt := %s.' % (k, L(raw_terms(text))))
+                std.append((pkg, rel, 'std_data_%d' % k))
+            except ValueError:
+                pass
+        nprog = ctx.scale(40, 500) * (3 if ctx.widen else 1)
+        i = -1
+        while len(fs_cases) < nprog and i < 20 * nprog:
+            i += 1
+            c = gen_search_case(rng, root, i, pkgroot)
+            write_search_case(c, pkgroot)
+            pm = PathMap(c['case'], i)
+            (kind, val), log = run_search_case(c)
+            # most random layouts fail at the first missing module: keep a quarter of the failing ones
+            if kind != 'ok' and rng.random() < 0.75:
+                continue
+            try:
+                env_defs.append('Definition senv_%d : env := %s.' % (i, search_env_term(c, pm, std)))
+                main_raw = L(raw_terms(c['main']))
+            except Exception as ex:
+                env_defs.append('Definition senv_%d : env := mkEnv [] [] EmptyString None [] STDLIB.' % i)
+                ctx.note('search stream: front end rejected a generated file: %r' % (ex,))
+                continue
+            shown = {'main': c['main'], 'grammar_name': pm.m(c['gname']), 'cwd': pm.m(c['cwd']), 'keep_all_tokens': c['keep'],
+                     'import_paths': [[p[1], [pm.m(x + '/')[:-1] for x in p[2]]] if p[0] == 'pkg' else pm.m(p[1]) for p in c['paths']],
+                     'files': {pm.m(k): v for k, v in c['files'].items()},
+                     'package_data': {'%s:%s' % (k[0], pm.m(k[1])): v for k, v in c['data'].items()}}
+            if kind == 'ok':
+                gb = val
+                defs = [cdef(n, d.is_term, d.tree, d.params, d.options) for n, d in gb._definitions.items()]
+                obs = '(inl (%s, %s, %s))' % (L(defs), L([S(str(x)) for x in gb._ignore_names]),
+                                              L([cgname(n, pm) for n in gb.used_files]))
+                shown['observed'] = {'definitions': list(map(str, gb._definitions)),
+                                     'used_files': [pm.m(str(n)) for n in gb.used_files]}
+            else:
+                obs = '(inr %d)' % exc_class(val)
+                shown['observed'] = '%s: %s' % (type(val).__name__, pm.m(str(val))[:120])
+            gn = '(GName %s)' % S(pm.m(c['gname']))
+            fs_cases.append('((senv_%d, %s, %s, %s, %s) : fs_case)' % (i, B(c['keep']), gn, main_raw, obs))
+            fs_meta.append(shown)
+            nfound = sum(1 for r in log if r['found'] is not None)
+            ctx.count('search-load', key=repr(sorted(shown.items(), key=lambda kv: kv[0])), nontrivial=nfound >= 1,
+                      search_outcome='ok' if kind == 'ok' else type(val).__name__, files_found=min(nfound, 4))
+            if len(fs_cases) <= 2:
+                ctx.sample({'search-load': shown})
+            for r in log:
+                if r['found'] is not None:
+                    o = '(inl %s)' % cgname(r['found'], pm)
+                    how = pm.m(str(r['found']))
+                elif r['exc'] is not None:
+                    o = '(inr %d)' % exc_class(r['exc'])
+                    how = type(r['exc']).__name__
+                else:
+                    continue
+                res_cases.append('((senv_%d, %s, %s, %s) : resolve_case)' % (i, cbase(r['base'], pm), L([S(x) for x in r['path']]), o))
+                res_meta.append(dict(shown, dotted_path='.'.join(r['path']), base_path=pm.m(str(r['base'])), resolved=how))
+                where = 'not-found:' + how
+                if r['found'] is not None:
+                    where = 'package' if not isinstance(r['found'], str) else pm.m(os.path.dirname(r['found'])) or 'cwd'
+                ctx.count('search-resolve', key=(i, r['path'], str(r['base']), how), nontrivial=True,
+                          base='none' if r['base'] is None else type(r['base']).__name__, found_in=where)
+        extra = CUR.defs() + '\n'.join(std_defs) + '\n' + '\n'.join(env_defs) + '\n'
+    finally:
+        CUR = saved_interner
+        sys.path.remove(pkgroot)
+        sys.modules.pop(SEARCH_PKG, None)
+    cases = [('(SResolve %s)' % c, m, 'Mod/Search.resolve vs GrammarBuilder.do_import (which file a dotted path denotes)')
+             for c, m in zip(res_cases, res_meta)] + \
+            [('(SLoad %s)' % c, m, 'Mod/Search.load_fs_and_validate vs GrammarBuilder.load_grammar over a directory layout '
+                                   '(definitions, used_files, exception class)') for c, m in zip(fs_cases, fs_meta)]
+    bad, errs = ctx.coq_bad_indices('c17search', IMPORTS_SEARCH, 'check_search', [c for c, _, _ in cases],
+                                    chunk=max(60, len(cases) // 2 + 1), extra_defs=extra)
+    for e in errs:
+        ctx.violation('correspondence:coq-eval', {'error': e}, False, e[:300])
+    seen_what = {}
+    for i in bad:
+        _, m, what = cases[i]
+        seen_what[what] = seen_what.get(what, 0) + 1
+        if seen_what[what] <= 3:
+            ctx.violation('correspondence:' + what, dict(m, no_longer_checks=what), False,
+                          'model and implementation differ: %s' % (str(m.get('resolved', m.get('observed')))[:200],))
+
+
+def path_cases(rng, n):
+    import posixpath
+    parts = ['', '/', '//', 'a', 'a/', 'a//', '/a', '/a/b', 'a/b/', 'a//b', '/r/s0/home', '<c17>', '<string>', 'x.lark', 'lp/main.lark',
+             '/r/s1/home/sub/main.lark', '///', 'a/b//', '/a//']
+    out = []
+    for _ in range(n):
+        a = rng.choice(parts) if rng.random() < 0.7 else ''.join(rng.choice('a/b') for _ in range(rng.randint(0, 6)))
+        if rng.random() < 0.5:
+            b = rng.choice(['m.lark', 'sub/m.lark', 'a/b/c.lark'])
+            out.append(('(0, %s, %s, %s)' % (S(a), S(b), S(posixpath.join(a, b))), {'join': [a, b], 'result': posixpath.join(a, b)}))
+        else:
+            out.append(('(1, %s, %s, %s)' % (S(a), S(''), S(posixpath.split(a)[0])), {'split': a, 'head': posixpath.split(a)[0]}))
+    return out
+
+
+# ----------------------------------------------------------------------------------------------
+# histories: ONE process, the same top-level grammar text loaded again and again while the modules it imports
+# change (another import_paths directory / the module file rewritten in place / changed back).  Every load must
+# mean what ITS hand-inlined grammar means - nothing of an earlier load (parsed trees, resolved terminal
+# references, builder state) may survive.  The top-level grammar has a terminal built from an imported terminal
+# (its tree is the only one load_grammar does not copy before resolve_term_references rewrites it in place).
+# ----------------------------------------------------------------------------------------------
+def vary_modules(prog, tag):
+    """the same program with other literals in the terminals of every imported module (main untouched)"""
+    def v_item(it):
+        if it[0] == 'lit':
+            return ('lit', it[1].upper() + tag if it[1].isalpha() else it[1])
+        if it[0] in ('grp', 'opt'):
+            return (it[0], [([v_item(i) for i in seq], al) for seq, al in it[1]])
+        if it[0] == 'rep':
+            return ('rep', v_item(it[1]), it[2])
+        return it
+
+    def v_stmt(st):
+        if st[0] == 'term':
+            return ('term', st[1], st[2], [([v_item(i) for i in seq], al) for seq, al in st[3]])
+        if st[0] in ('override', 'extend'):
+            return (st[0], v_stmt(st[1]))
+        return st
+    return {p: (st if p == ('main',) else [v_stmt(x) for x in st]) for p, st in prog.items()}
+
+
+def gen_history_program(rng):
+    for _ in range(200):
+        prog, info = gen_program(rng, False)
+        if info.get('skip_b') or len(prog) < 2:
+            continue
+        main = prog[('main',)]
+        iterms = [loc for (imp, loc) in info.get('origin', {}) if imp == 'main']
+        if not iterms:
+            continue
+        t = rng.choice(sorted(iterms))
+        # a top-level terminal built from the imported one, reachable from start
+        main.append(('term', 'HX', None, [([('sym', t), ('lit', '!')], None)]))
+        for i, st in enumerate(main):
+            if st[0] == 'rule' and st[2] == 'start':
+                main[i] = st[:5] + (st[5] + [([('sym', 'HX')], None)],)
+        try:
+            inline_program(prog)
+        except SpecError:
+            continue
+        return prog, info
+    return None, None
+
+
+def run_histories(ctx, load_cases, load_meta):
+    rng = ctx.rng
+    for h in range(ctx.scale(8, 60)):
+        prog, info = gen_history_program(rng)
+        if prog is None:
+            continue
+        main_text = p_module(prog[('main',)])
+        variants = [prog, vary_modules(prog, 'q'), vary_modules(prog, 'r')]
+        d0 = os.path.join(ctx.scratch, 'hist%d_a' % h)
+        d1 = os.path.join(ctx.scratch, 'hist%d_b' % h)
+        # (directory, variant): another directory, back, the file rewritten in place, and rewritten back
+        steps = [(d0, 0), (d1, 1), (d0, 0), (d0, 2), (d0, 0)]
+        opts = {'keep_all_tokens': rng.random() < 0.3, 'maybe_placeholders': rng.random() < 0.5}
+        for k, (d, vi) in enumerate(steps):
+            vp = variants[vi]
+            files = {p: p_module(st) for p, st in vp.items() if p != ('main',)}
+            write_program(files, d)
+            try:
+                defs, ignore, inl_text, labels = inline_program(vp, by_hand_templates=(k % 2 == 1))
+            except SpecError:
+                break
+            srcs = [(dd['module'], dd['origin']) for dd in defs.values() if dd['is_term']]
+            diamond = len(srcs) != len(set(srcs))
+            # (a) the builder's definitions of THIS load against the model
+            try:
+                term, obs, msg = load_case_term(files, main_text, d, opts['keep_all_tokens'])
+                load_cases.append(term)
+                load_meta.append((files, main_text, inl_text, labels, {'shape': 'history step %d' % k, 'opts': opts}))
+                ctx.count('history-load', key=(main_text, k, vi), nontrivial=True, step=k)
+            except Exception as ex:
+                ctx.note('history: load_case_term failed: %r' % (ex,))
+            # (b) the differential of THIS load against its own hand-inlined grammar
+            if diamond:
+                continue
+            texts = gen_inputs(defs, ignore, rng, 3, 1, 0)
+            for parser in ('lalr', 'earley'):
+                try:
+                    bad, acc = differential(files, main_text, inl_text, labels, texts, parser, d, opts)
+                except Exception as ex:
+                    ctx.violation('differential-raised', dict(witness(files, main_text, inl_text, labels, parser, '', opts),
+                                                             history=history_witness(variants, steps[:k + 1], main_text)),
+                                  True, 'unexpected exception %r at step %d of a history' % (ex, k))
+                    continue
+                for t in texts:
+                    ctx.count('history-parse', key=(main_text, k, t, parser), nontrivial=True, step=k, parser=parser)
+                for kind, t, a, b in bad[:1]:
+                    ctx.violation('inlining-differential:history-' + kind,
+                                  dict(witness(files, main_text, inl_text, labels, parser, t or '', opts),
+                                       history=history_witness(variants, steps[:k + 1], main_text)), True,
+                                  'load number %d of the same top-level grammar text in one process (modules changed in '
+                                  'between): modular grammar gives %s, the hand-inlined grammar gives %s (parser=%s, text=%r)'
+                                  % (k + 1, str(a)[:160], str(b)[:160], parser, t))
+
+
+def history_witness(variants, steps, main_text):
+    """the loads to replay in order: [(directory tag, {module: text})]"""
+    return [{'dir': os.path.basename(d), 'files': {'.'.join(p): p_module(st) for p, st in variants[vi].items() if p != ('main',)}}
+            for d, vi in steps]
+
+
+# ----------------------------------------------------------------------------------------------
+# systematic family: the instance of a template has the template's options (modifiers, priority, label)
+# - every modifier x priority x where the template lives x order of the competing alternative; the priority
+# decides which of two derivations Earley returns and whether LALR can be built at all
+# ----------------------------------------------------------------------------------------------
+def template_option_family():
+    out = []
+    LET = 'LETTERS: /[a-z0-9]+/\n'
+    for mods in ('', '!', '?', '?!'):
+        for prio in (None, 2, -1):
+            ps = '' if prio is None else '.%d' % prio
+            for first in (False, True):
+                for loc in ('local', 'imported-template', 'imported-rule'):
+                    name = 'tmplopt:%s:%s:%s:%s' % (mods or '-', prio, 'tmpl-first' if first else 'tmpl-second', loc)
+                    if loc == 'imported-rule':
+                        alts = 'w | num' if first else 'num | w'
+                        files = {('m',): 'w: word{LETTERS}\n%sword{t}%s: t "!"\n%s' % (mods, ps, LET)}
+                        main = '%%import m (w, LETTERS)\nstart: %s\nnum: LETTERS "!"\n' % alts
+                        inl = 'start: %s\nnum: LETTERS "!"\nw: m__word\n%sm__word%s: LETTERS "!"\n%s' % (alts, mods, ps, LET)
+                    else:
+                        alts = 'word{LETTERS} | num' if first else 'num | word{LETTERS}'
+                        ialts = 'word | num' if first else 'num | word'
+                        tdef = '%sword{t}%s: t "!"\n' % (mods, ps)
+                        if loc == 'local':
+                            files = {}
+                            main = 'start: %s\n%snum: LETTERS "!"\n%s' % (alts, tdef, LET)
+                        else:
+                            files = {('m',): tdef}
+                            main = '%%import m.word\nstart: %s\nnum: LETTERS "!"\n%s' % (alts, LET)
+                        inl = 'start: %s\n%sword%s: LETTERS "!"\nnum: LETTERS "!"\n%s' % (ialts, mods, ps, LET)
+                    out.append(dict(name=name, files=files, main=main, inlined=inl, labels={}, texts=['abc!', 'x1', '!']))
+    for p1, p2 in ((3, 3), (None, 2), (-1, None), (2, -2)):
+        f = lambda p: '' if p is None else '.%d' % p
+        out.append(dict(name='tmplopt:nested:%s:%s' % (p1, p2), files={},
+                        main=('start: pair{A, B} | other\npair{x, y}%s: wrap{x} wrap{y}\nwrap{z}%s: z\nother: a b\n'
+                              'a: A\nb: B\nA: "a"\nB: "b"\n' % (f(p1), f(p2))),
+                        inlined=('start: pair | other\npair%s: wrap_a wrap_b\nwrap_a%s: A\nwrap_b%s: B\nother: a b\n'
+                                 'a: A\nb: B\nA: "a"\nB: "b"\n' % (f(p1), f(p2), f(p2))),
+                        labels={'wrap_a': 'wrap', 'wrap_b': 'wrap'}, texts=['ab', 'a']))
+    return out
+
+
+def run_template_option_family(ctx, tmpl_cases, tmpl_meta):
+    for idx, e in enumerate(template_option_family()):
+        d = os.path.join(ctx.scratch, 'topt_%d' % idx)
+        write_program(e['files'], d)
+        for parser, opts in (('earley', {}), ('earley', {'lexer': 'basic'}), ('lalr', {})):
+            bad, acc = differential(e['files'], e['main'], e['inlined'], e['labels'], e['texts'], parser, d, opts)
+            for t in e['texts']:
+                ctx.count('template-options', key=(e['name'], t, parser, repr(opts)), nontrivial=True)
+            for kind, t, a, b in bad[:1]:
+                ctx.violation('inlining-differential:' + kind,
+                              witness(e['files'], e['main'], e['inlined'], e['labels'], parser, t or '', opts), True,
+                              'template instance vs hand-written instance (%s): modular grammar gives %s, the hand-inlined '
+                              'grammar gives %s (parser=%s %s, text=%r)' % (e['name'], str(a)[:160], str(b)[:160], parser, opts, t))
+        # the instantiation steps themselves, against the model (options of the instance included)
+        try:
+            for c in record_templates(e['main'], d):
+                tmpl_cases.append(c)
+                tmpl_meta.append((e['files'], e['main'], e['inlined'], e['labels']))
+                ctx.count('template-step', key=c, nontrivial=True)
+        except Exception as ex:
+            ctx.note('template recording failed on %s: %r' % (e['name'], ex))
+
+
+# ----------------------------------------------------------------------------------------------
 def correspond(ctx):
     rng = ctx.rng
     wide = 3 if ctx.widen else 1
     nprog = ctx.scale(170, 1500) * wide
 
     new_interner()
-    # (0) mangle as a function --------------------------------------------------------------------
-    mcm = mangle_cases(rng, ctx.scale(300, 3000))
-    mc = [c for c, _ in mcm]
-    for c in mc:
+    # (0) the small streams (mangle as a function, _unpack_import, _unpack_definition, os.path) are evaluated in one
+    # generated Coq file at the end: every file pays the same start-up cost
+    small = []        # (coq small_case term, readable meta, what the model function is compared with)
+    for c, m in mangle_cases(rng, ctx.scale(300, 3000)):
         ctx.count('mangle', key=c, nontrivial=True)
-    bad, errs = ctx.coq_bad_indices('c17mangle', IMPORTS, 'check_mangle', mc, chunk=1000, extra_defs=CUR.defs())
-    for e in errs:
-        ctx.violation('correspondence:coq-eval', {'error': e}, False, e[:300])
-    mangle_broken = bool(bad)
-    for i in bad[:3]:
-        ctx.violation('correspondence:Mod/Modules.mangle vs load_grammar._get_mangle',
-                      dict(mcm[i][1], no_longer_checks='_get_mangle agreement'), False,
-                      'model and _get_mangle differ: %s' % (mcm[i][1],))
+        small.append(('(CMangle %s)' % c, dict(m, no_longer_checks='_get_mangle agreement'),
+                      'Mod/Modules.mangle vs load_grammar._get_mangle'))
 
     # (1) programs --------------------------------------------------------------------------------
     load_cases, load_meta = [], []
@@ -1413,17 +2025,34 @@ def correspond(ctx):
             ctx.histo['feature'][f] = ctx.histo['feature'].get(f, 0) + 1
 
     run_option_corpus(ctx, load_cases, load_meta)
-    uc = unpack_cases(import_texts)
-    for c, m in uc:
+    run_template_option_family(ctx, tmpl_cases, tmpl_meta)
+    run_histories(ctx, load_cases, load_meta)
+    for c, m in unpack_cases(import_texts):
         ctx.count('unpack-import', key=c, nontrivial=True)
-    bad, errs = ctx.coq_bad_indices('c17unpack', IMPORTS, 'check_unpack', [c for c, _ in uc], chunk=2000, extra_defs=CUR.defs())
+        small.append(('(CUnpackImport %s)' % c, dict(m, no_longer_checks='_unpack_import agreement'),
+                      'Mod/Unpack.unpack_import vs GrammarBuilder._unpack_import'))
+    # raw statement front: _make_rule_tuple / _unpack_definition on every definition statement
+    for c, m in unpack_def_cases(UNPACK_DEF_FIXED + import_texts[len(UNPACK_FIXED):]):
+        ctx.count('unpack-definition', key=c, nontrivial=True)
+        small.append(('(CUnpackDef %s)' % c, dict(m, no_longer_checks='_unpack_definition agreement'),
+                      'Mod/Front.unpack_def vs _make_rule_tuple/_unpack_definition'))
+    # posixpath join / split as used by do_import and _unpack_import
+    for c, m in path_cases(rng, ctx.scale(200, 2000)):
+        ctx.count('path-functions', key=c, nontrivial=True)
+        small.append(('(CPath %s)' % c, dict(m, no_longer_checks='path functions'), 'Mod/Search.path_join/dirname vs os.path'))
+    bad, errs = ctx.coq_bad_indices('c17small', IMPORTS_SEARCH, 'check_small', [c for c, _, _ in small], chunk=4000,
+                                    extra_defs=CUR.defs())
     for e in errs:
         ctx.violation('correspondence:coq-eval', {'error': e}, False, e[:300])
-    for i in bad[:3]:
-        ctx.violation('correspondence:Mod/Unpack.unpack_import vs GrammarBuilder._unpack_import',
-                      dict(uc[i][1], no_longer_checks='_unpack_import agreement'), False,
-                      'model and _unpack_import differ: %s' % (uc[i][1],))
-    bad, errs = ctx.coq_bad_indices('c17load', IMPORTS, 'check_load', load_cases, chunk=max(8, len(load_cases) // 12 + 1),
+    seen_what = {}
+    for i in bad:
+        _, m, what = small[i]
+        seen_what[what] = seen_what.get(what, 0) + 1
+        if seen_what[what] <= 3:
+            ctx.violation('correspondence:' + what, m, False, 'model and implementation differ: %s' % (m,))
+    # the file search and load_grammar over directory layouts
+    run_search_stream(ctx)
+    bad, errs = ctx.coq_bad_indices('c17load', IMPORTS, 'check_load', load_cases, chunk=max(8, len(load_cases) // 6 + 1),
                                     extra_defs=CUR.defs())
     for e in errs:
         ctx.violation('correspondence:coq-eval', {'error': e}, False, e[:300])
@@ -1435,7 +2064,7 @@ def correspond(ctx):
                       False, 'GrammarBuilder._definitions differ from the model on a program of shape %s (options %s)'
                       % (info['shape'], info.get('opts')))
     bad, errs = ctx.coq_bad_indices('c17tmpl', IMPORTS, 'check_template', tmpl_cases,
-                                    chunk=max(20, len(tmpl_cases) // 8 + 1), extra_defs=CUR.defs())
+                                    chunk=max(20, len(tmpl_cases) // 4 + 1), extra_defs=CUR.defs())
     for e in errs:
         ctx.violation('correspondence:coq-eval', {'error': e}, False, e[:300])
     for i in bad[:6]:
@@ -1471,6 +2100,15 @@ def replay(ctx, case):
     files = {tuple(k.split('.')): v for k, v in w['files'].items()}
     d = os.path.join(ctx.scratch, 'replay')
     write_program(files, d)
+    if w.get('history'):
+        # replay every load of the history in order, in this process; the last one is the failing load
+        for step in w['history'][:-1]:
+            hd = os.path.join(ctx.scratch, 'replay_' + step['dir'])
+            write_program({tuple(k.split('.')): v for k, v in step['files'].items()}, hd)
+            for parser in ('lalr', 'earley'):
+                build(w['main'], parser, hd, **(w.get('options') or {}))
+        d = os.path.join(ctx.scratch, 'replay_' + w['history'][-1]['dir'])
+        write_program(files, d)
     if case.get('stage') == 'import-error-agreement':
         obs, msg = observe_builder(w['main'], d, bool((w.get('options') or {}).get('keep_all_tokens')))
         return (obs is None) != (w['inlined'] is None)
